@@ -48,7 +48,14 @@ def main():
             if seed:
                 env["VERIF_SEED"] = seed
             t0 = time.time()
+            # the evidence file of a run against a seeded change is not evidence about /repo: keep the committed one
+            evf = os.path.join(V, "evidence", p + ".json")
+            saved = open(evf, "rb").read() if os.path.exists(evf) else None
             rr = sh(["python3", os.path.join(V, "verif.py"), "check", p, "--tier", tier], cwd=V, env=env)
+            if os.path.exists(evf):
+                os.replace(evf, os.path.join(d, "evidence-%s.json" % p))
+            if saved is not None:
+                open(evf, "wb").write(saved)
             keys = [l.strip()[4:] for l in rr.stdout.split("\n") if l.strip().startswith("key=")]
             last = [l for l in rr.stdout.split("\n") if l.startswith(p + " tier=")]
             results[p] = dict(against=("worktree " + worktree if worktree else "/repo with the patch applied"), exit=rr.returncode, violation_keys=sorted(set(keys))[:12], summary=(last[-1] if last else rr.stdout[-400:]), wall_s=round(time.time() - t0, 1), tier=tier,
